@@ -54,7 +54,9 @@ def gen_ops(rng):
     ops += [("populate", [("name", "A")]), ("populate", [("name", "B"), ("name", "Cc")]),
             ("populate", [("name", "A"), ("name", "a"), ("name", "B")]),
             ("populate", [("assign", "D_1", ["A", "B"])]), ("populate", [("name", "Cc"), ("assign", "B", ["Cc"])]),
-            ("populate", [("name", "Identity")]), ("populate", [("assign", "A", ["Zero"])])]
+            ("populate", [("name", "Identity")]), ("populate", [("assign", "A", ["Zero"])]),
+            # "Name.method()": a transformed fresh pointer (copy() keeps the scripted integer vector)
+            ("populate", [("method", "B", "copy()")]), ("populate", [("name", "A"), ("method", "Cc", "copy()"), ("name", "B")])]
     ops += [("subset", ["A"]), ("subset", ["A", "B"]), ("subset", ["Cc", "Identity"]), ("subset", [])]
     ops += [("mutate-in",), ("mutate-vectors",), ("mutate-item",)]
     return ops
@@ -139,6 +141,8 @@ def run(rep, tier, rng):
                     for it in op[1]:
                         if it[0] == "name":
                             items.append(f"(IName {c.s(it[1])})"); parts.append(it[1])
+                        elif it[0] == "method":
+                            items.append(f"(IName {c.s(it[1])})"); parts.append(f"{it[1]}.{it[2]}")
                         else:
                             # the value: sum of the named vectors as the implementation will compute it
                             items.append(("assign", it[1], it[2])); parts.append(f"{it[1]} = {' + '.join(it[2])}")
@@ -230,7 +234,7 @@ def run(rep, tier, rng):
     import warnings
     for al in algs.ALGS:
         for strict in (True, False):
-            for populate in (None, False, True):
+            for populate, keys in [(pp, kk) for pp in (None, False, True) for kk in (None, [], (), ["B"], ["A"], ("Cc", "A"))]:
                 A = algs.alg_obj(al)
                 voc = spa.Vocabulary(d, strict=strict, algebra=A, pointer_gen=np.random.RandomState(1))
                 voc.add("A", np.array(script_vec(d, 0), float))
@@ -240,20 +244,23 @@ def run(rep, tier, rng):
                 before = (list(voc.keys()), np.array(voc.vectors, copy=True))
                 with warnings.catch_warnings():
                     warnings.simplefilter("ignore")
-                    o = c.outcome(lambda: src.transform_to(voc, populate=populate))
+                    o = c.outcome(lambda: src.transform_to(voc, populate=populate) if keys is None else src.transform_to(voc, populate=populate, keys=keys))
                 after = (list(voc.keys()), np.asarray(voc.vectors))
-                rep.case(("as-target", al, strict, populate))
+                want_keys = sorted(set(["A"]) | set(["A", "B", "Cc"] if keys is None else keys))
+                rep.case(("as-target", al, strict, populate, None if keys is None else tuple(keys)))
                 rep.count("op_transform_to_into")
                 unchanged = after[0] == before[0] and np.array_equal(after[1], before[1])
                 prefix_ok = after[0][:len(before[0])] == before[0] and np.array_equal(after[1][:len(before[0])], before[1])
                 if populate is not True and not unchanged:
-                    rep.violation(f"transform_to(target, populate={populate}) changed the target vocabulary: keys {before[0]} -> {after[0]} ({al}, strict={strict})",
-                                  {"case": {"alg": al, "strict": strict, "populate": populate},
+                    rep.violation(f"transform_to(target, populate={populate}, keys={keys!r}) changed the target vocabulary: keys {before[0]} -> {after[0]} ({al}, strict={strict})",
+                                  {"case": {"alg": al, "strict": strict, "populate": populate, "keys": None if keys is None else list(keys)},
                                    "python": "import numpy as np, nengo_spa as spa\nt = spa.Vocabulary(4); t.populate('A')\ns = spa.Vocabulary(4); s.populate('A; B')\n"
                                              f"import warnings; warnings.simplefilter('ignore'); s.transform_to(t, populate={populate})\nassert list(t.keys()) == ['A'], list(t.keys())\n"})
-                if populate is True and not (prefix_ok and sorted(after[0]) == ["A", "B", "Cc"] and len(voc) == len(after[1]) == 3):
-                    rep.violation(f"transform_to(target, populate=True) did not append exactly the missing keys: {before[0]} -> {after[0]}",
-                                  {"case": {"alg": al, "strict": strict}})
+                if populate is True and not (prefix_ok and sorted(after[0]) == want_keys and len(voc) == len(after[1]) == len(want_keys)):
+                    rep.violation(f"transform_to(target, populate=True, keys={keys!r}) did not append exactly the missing requested keys: {before[0]} -> {after[0]}",
+                                  {"case": {"alg": al, "strict": strict, "keys": None if keys is None else list(keys)},
+                                   "python": "import numpy as np, nengo_spa as spa\nt = spa.Vocabulary(4); t.populate('A')\ns = spa.Vocabulary(4); s.populate('A; B; Cc')\n"
+                                             f"s.transform_to(t, populate=True, keys={None if keys is None else list(keys)!r})\nassert sorted(t.keys()) == {want_keys!r}, list(t.keys())\n"})
 
     # ---- the vocabulary as the *source* of transform_to / create_subset: never changed -----------------------------
     for al in algs.ALGS:
